@@ -147,6 +147,24 @@ def bit_compare(hA, hB):
     return None
 
 
+def _single_phase(spec, ops_same, same, p0, c, maxima):
+    """Mineral in a multiphase aggregate with fraction phi  vs  single-phase mineral with
+    mobility M* x phi (1e-6, tight solver)."""
+    specS = copy.deepcopy(spec)
+    for p in specS["paramsets"]:
+        if p0 in [int(x) for x in p["phase_assemblage"]]:
+            phi = p["phase_fractions"][[int(x) for x in p["phase_assemblage"]].index(p0)]
+            p["gbm_mobility"] = p["gbm_mobility"] * phi
+            p["phase_assemblage"] = [p0]
+            p["phase_fractions"] = [1.0]
+    vs = []
+    wS1, trS, _ = run_traced(specS, ops_same)
+    wI1, trI, _ = run_traced(spec, ops_same)
+    compare_traces(trI, trS, lambda m, A: A, lambda F: F, lambda N, s: 1e-6, PROPERTY,
+                   "single_phase_equivalent", vs, c, maxima, minerals=set(same))
+    return vs
+
+
 def execute(scn):
     from ..world import World
 
@@ -228,18 +246,26 @@ def execute(scn):
                 v("own_fraction", m, dict(d, what2="changing only the OTHER phase's fraction changed this mineral"))
         # single-phase mineral with mobility M* x phi
         if spec.get("solver", {}).get("tol") == "tight":
-            specS = copy.deepcopy(spec)
-            for p in specS["paramsets"]:
-                if p0 in [int(x) for x in p["phase_assemblage"]]:
-                    phi = p["phase_fractions"][[int(x) for x in p["phase_assemblage"]].index(p0)]
-                    p["gbm_mobility"] = p["gbm_mobility"] * phi
-                    p["phase_assemblage"] = [p0]
-                    p["phase_fractions"] = [1.0]
             ops_same = [o for o in flat if o["m"] in same]
-            wS1, trS, _ = run_traced(specS, ops_same)
-            wI1, trI, _ = run_traced(spec, ops_same)
-            compare_traces(trI, trS, lambda m, A: A, lambda F: F, lambda N, s: 1e-6, PROPERTY,
-                           "single_phase_equivalent", verdicts, c, maxima, minerals=set(same))
+            vs = _single_phase(spec, ops_same, same, p0, c, maxima)
+            if vs:
+                # not bit-identical arithmetic by contract (phi*M* is formed at another place):
+                # a discrepancy must be generic to count (see twin.confirm_chain)
+                from ..twin import conditioning
+
+                generic = True
+                for pseed in (101, 202):
+                    sp = copy.deepcopy(spec)
+                    sp["perturb"] = {"eps": 1e-9, "seed": pseed}
+                    if not _single_phase(sp, ops_same, same, p0, {}, {}):
+                        generic = False
+                        c["knife_edge_not_reproduced_under_perturbation"] = 1
+                        break
+                if generic and conditioning(spec, ops_same, lambda N, s_: 1e-6, 1e-9, PROPERTY) > 0.1:
+                    generic = False
+                    c["ill_conditioned_history_not_judged"] = 1
+                if generic:
+                    verdicts.extend(vs)
     # ---- one bulk update from the reached state, in two orders
     bt = scn.get("bulk_tail")
     if bt:
@@ -335,7 +361,7 @@ def shrink_candidates(scn):
             yield s
 
 
-RUNS = {"quick": 500, "thorough": 25000}
+RUNS = {"quick": 500, "thorough": 4000}
 RULE = ("one evaluation = one seeded world of 2-4 minerals (both phases, own flows / params / "
         "pathlines) whose op list is produced by a seeded scheduler: call-level interleaving, and "
         "overlap ops in which 2-3 minerals are advanced concurrently by real caller threads parked "
